@@ -79,9 +79,11 @@ func (w *World) Log(comp, kind string, idx int, arg string) {
 	e := Event{Seq: len(w.log), T: time.Since(w.start), Comp: comp, Kind: kind, Idx: idx, Arg: arg}
 	w.log = append(w.log, e)
 	hc := comp
-	if comp == "db" || comp == "ctl" || comp == "lc" { // written by several goroutines: bucket by what was written, not by arrival order
+	if comp == "db" || comp == "ctl" || comp == "lc" { // written by several goroutines: bucket by what was written
 		hc = comp + ":" + kind + ":" + arg
 		idx = 0
+	} else {
+		hc = comp + ":" + kind // per component and kind: a fake's own goroutines (emitter / ack receiver) race for the log
 	}
 	w.compHash[hc] = Hash64(fmt.Sprintf("%x|%s|%d|%s", w.compHash[hc], kind, idx, arg))
 	mons := w.monitors
